@@ -1016,6 +1016,328 @@ pub fn check_history(obs: &mut Obs, plan: &Plan, h: &RtScope, outcome: &Outcome,
     obs.count("histories_consistent", 1);
 }
 
+// ---------------------------------------------------------------------------------------------
+// Polling that is abandoned and started again; two pollers of one site alive at once
+// ---------------------------------------------------------------------------------------------
+//
+// "Every moment at which polling starts": also the moment right after an earlier polling future
+// was dropped at an await point (a caller's `select!` or `timeout`), and the moment at which
+// another poller of the same site is alive and has a download in flight.  Both are ordinary
+// starts; the oracle is the statement's: the first delivery is the newest chunk present at that
+// start, byte-identical, then the series advances by one.
+
+pub struct PlainScope {
+    pub site: String,
+    pub vol: usize,
+    pub chunks: Vec<ChunkObj>, // index = seq - 1
+    pub visible_upto: usize,
+    pub gets: usize,
+    pub log: Vec<(String, u16)>,
+    /// on the j-th download: tell the caller (who drops the polling future) and stall the reply mid-body
+    pub abandon: Option<(usize, Arc<tokio::sync::Notify>)>,
+    /// on the first download of this sequence number: publish it and the chunk after it, tell the
+    /// harness (which starts a second poller) and keep the reply in flight until the gate opens
+    pub hold_seq: Option<usize>,
+    pub held: Option<Arc<s3sim::HoldGate>>,
+    pub held_tx: Option<Sender<()>>,
+    /// once armed (after the held download was let go): on the j-th download from then on the stop
+    /// signal is enqueued while that download is served
+    pub stop_tx: Option<Sender<bool>>,
+    pub stop_after_gets: Option<usize>,
+}
+
+impl Scope for PlainScope {
+    fn handle(&mut self, req: &Req) -> Resp {
+        let resp = if req.is_list() {
+            let prefix = req.q("prefix").unwrap_or("").to_string();
+            let max_keys = req.q("max-keys").and_then(|m| m.parse::<usize>().ok());
+            let mut objs: Vec<Obj> = self
+                .chunks
+                .iter()
+                .filter(|c| c.seq <= self.visible_upto)
+                .map(|c| Obj { key: format!("{}/{}/{}", self.site, c.vol, c.name), last_modified: s3sim::rfc3339(c.upload_s * 1000, c.seq % 2 == 0), size: c.bytes.len().to_string() })
+                .collect();
+            objs.sort_by(|a, b| a.key.as_bytes().cmp(b.key.as_bytes()));
+            let (sel, truncated, limit) = s3sim::select(&objs, &prefix, max_keys);
+            Resp::xml(s3sim::list_xml(&req.bucket, &prefix, &sel, truncated, limit, false))
+        } else {
+            self.gets += 1;
+            if let Some(n) = self.stop_after_gets {
+                if n <= 1 {
+                    if let Some(tx) = &self.stop_tx {
+                        let _ = tx.send(true);
+                    }
+                    self.stop_after_gets = None;
+                } else {
+                    self.stop_after_gets = Some(n - 1);
+                }
+            }
+            let key = req.key.clone().unwrap_or_default();
+            let name = key.rsplit('/').next().unwrap_or("").to_string();
+            let seq = name.split('-').nth(2).and_then(|s| s.parse::<usize>().ok()).unwrap_or(0);
+            let found = self.chunks.iter().position(|c| c.name == name && key == format!("{}/{}/{}", self.site, c.vol, c.name));
+            match found {
+                None => Resp::status(404),
+                Some(i) => {
+                    if self.hold_seq == Some(seq) && self.held.is_none() {
+                        // the uploader publishes this chunk and the next while the download is in flight
+                        self.visible_upto = self.visible_upto.max(seq + 1).min(55);
+                        let c = &self.chunks[i];
+                        let (r, gate) = Resp::held(Resp::object(c.bytes.clone(), Some(s3sim::rfc2822(c.upload_s))));
+                        self.held = Some(gate);
+                        if let Some(tx) = &self.held_tx {
+                            let _ = tx.send(());
+                        }
+                        self.log.push((req.raw.clone(), 996));
+                        return r;
+                    }
+                    // a chunk is uploaded when it is first asked for
+                    if seq == self.visible_upto + 1 {
+                        self.visible_upto = seq;
+                    }
+                    if seq > self.visible_upto {
+                        Resp::status(404)
+                    } else if matches!(&self.abandon, Some((j, _)) if *j == self.gets) {
+                        let c = &self.chunks[i];
+                        if let Some((_, note)) = &self.abandon {
+                            note.notify_one();
+                        }
+                        let keep = c.bytes.len() / 2;
+                        self.log.push((req.raw.clone(), 997));
+                        return Resp::stalled(c.bytes[..keep].to_vec(), c.bytes.len() - keep);
+                    } else {
+                        let c = &self.chunks[i];
+                        Resp::object(c.bytes.clone(), Some(s3sim::rfc2822(c.upload_s)))
+                    }
+                }
+            }
+        };
+        self.log.push((req.raw.clone(), resp.status));
+        resp
+    }
+}
+
+type Delivery = (usize, usize, Vec<u8>);
+
+/// Run the real poller on a thread of its own; with `abandon`, the polling future is dropped as
+/// soon as the simulator says so.  Returns what `poll_chunks` returned (None when it was dropped).
+fn spawn_poller(
+    site: String,
+    tx: Sender<(ChunkIdentifier, Chunk<'static>)>,
+    stop_rx: Receiver<bool>,
+    abandon: Option<Arc<tokio::sync::Notify>>,
+) -> std::thread::JoinHandle<Result<Option<Result<(), String>>, String>> {
+    std::thread::spawn(move || {
+        let r = mon::catch(|| {
+            s3sim::block_on(true, async {
+                match abandon {
+                    Some(note) => {
+                        tokio::select! {
+                            r = poll_chunks(&site, tx, None, stop_rx) => Some(r),
+                            _ = note.notified() => None,
+                        }
+                    }
+                    None => Some(poll_chunks(&site, tx, None, stop_rx).await),
+                }
+            })
+        });
+        match r {
+            Ok(o) => Ok(o.map(|r| r.map_err(|e| format!("{e:?}")))),
+            Err(p) => Err(format!("{}|{}", p.signature(), p.message)),
+        }
+    })
+}
+
+fn join_poller(h: std::thread::JoinHandle<Result<Option<Result<(), String>>, String>>, scope: &Arc<Mutex<PlainScope>>) -> Result<Option<Result<(), String>>, String> {
+    // hang rule as elsewhere: no request for 60 s of wall time and no return
+    let (mut last, mut quiet) = (0usize, 0u32);
+    while !h.is_finished() {
+        std::thread::sleep(std::time::Duration::from_millis(20));
+        let len = scope.lock().map(|g| g.log.len()).unwrap_or(0);
+        if len == last {
+            quiet += 1;
+        } else {
+            quiet = 0;
+            last = len;
+        }
+        if quiet >= 3000 {
+            return Err("hung".into());
+        }
+    }
+    h.join().unwrap_or_else(|_| Err("poller thread panicked outside the monitored call".into()))
+}
+
+fn drain_deliveries(rx: &Receiver<(ChunkIdentifier, Chunk<'static>)>) -> Vec<Delivery> {
+    let mut v = Vec::new();
+    while let Ok((id, chunk)) = rx.try_recv() {
+        v.push((id.volume().as_number(), id.sequence().unwrap_or(0), chunk.data().to_vec()));
+    }
+    v
+}
+
+fn plain_scope(rng: &mut Rng, index: u64, visible: usize) -> PlainScope {
+    let site = s3sim::fresh_site();
+    let vol = *rng.pick(&[1usize, 2, 500, 998, 999, 37]);
+    let prefix = format!("202408{:02}-{:02}{:02}{:02}", 10 + rng.below(18), rng.below(24), rng.below(60), rng.below(60));
+    let mut t = chrono::Utc::now().timestamp() - 100_000;
+    let chunks = (1..=55usize)
+        .map(|seq| {
+            t += *rng.pick(&[1i64, 4, 7, 9, 12]);
+            ChunkObj { vol, seq, name: chunk_name(&prefix, seq), bytes: chunk_bytes(rng, seq == 1, (index << 20) + 0x80000 + seq as u64), upload_s: t, get_failures: vec![], never: false }
+        })
+        .collect();
+    PlainScope { site, vol, chunks, visible_upto: visible, gets: 0, log: Vec::new(), abandon: None, hold_seq: None, held: None, held_tx: None, stop_tx: None, stop_after_gets: None }
+}
+
+/// deliveries must start at `first` and advance by one, each byte-identical to the uploaded chunk
+fn series_fault(d: &[Delivery], vol: usize, first: usize, scope: &PlainScope) -> Option<String> {
+    for (k, (v, s, bytes)) in d.iter().enumerate() {
+        if *v != vol || *s != first + k {
+            return Some(format!("delivery {} is ({}, {}), expected ({}, {})", k, v, s, vol, first + k));
+        }
+        if scope.chunks.get(s - 1).map(|c| &c.bytes != bytes).unwrap_or(true) {
+            return Some(format!("payload of ({}, {}) differs from the uploaded object", v, s));
+        }
+    }
+    None
+}
+
+pub fn run_abandoned(obs: &mut Obs, seed: u64, index: u64) {
+    let mut rng = Rng::derive(seed, 181, index);
+    let m = rng.urange(2, 40);
+    let mut sc = plain_scope(&mut rng, index, m);
+    let note = Arc::new(tokio::sync::Notify::new());
+    let j = rng.urange(1, 5);
+    sc.abandon = Some((j, note.clone()));
+    let (site, vol) = (sc.site.clone(), sc.vol);
+    let scope = Arc::new(Mutex::new(sc));
+    let sim = s3sim::global();
+    sim.register(&site, scope.clone());
+    obs.case(mix(mix(1810, m as u64), j as u64));
+    let (tx, rx) = channel();
+    let (stop_tx, stop_rx) = channel::<bool>();
+    let first = join_poller(spawn_poller(site.clone(), tx, stop_rx, Some(note)), &scope);
+    drop(stop_tx);
+    let d1 = drain_deliveries(&rx);
+    let replay = json!({"scenario": "abandoned-and-restarted", "scenario_index": index, "visible_at_start": m, "abandoned_at_download": j, "volume": vol,
+        "first_run_deliveries": d1.iter().map(|d| (d.0, d.1)).collect::<Vec<_>>()});
+    let env = |e: &str| e.contains("onnect");
+    match &first {
+        Err(e) if e == "hung" => obs.violation("polling hangs", "abandon scenario, first run", replay.clone()),
+        Err(e) => obs.violation(format!("poll_chunks {}", e.split('|').next().unwrap_or("panic")), e.clone(), replay.clone()),
+        Ok(Some(Err(e))) if env(e) => {
+            obs.skipped_environment("loopback connect failed during polling");
+            sim.unregister(&site);
+            return;
+        }
+        Ok(Some(r)) => obs.violation("polling returned although chunks kept appearing and nobody told it to stop", format!("{:?}", r), replay.clone()),
+        Ok(None) => obs.count("polling_futures_dropped_while_a_download_was_in_flight", 1),
+    }
+    if let Ok(g) = scope.lock() {
+        if let Some(f) = series_fault(&d1, vol, m, &g) {
+            obs.violation("deliveries before polling was abandoned are not the newest chunk at start followed by its successors", f, replay.clone());
+        }
+    }
+    // the site is polled again, with the stop signal already pending: exactly the newest chunk present now
+    let expected = scope.lock().map(|mut g| { g.abandon = None; g.visible_upto }).unwrap_or(m);
+    let (tx2, rx2) = channel();
+    let (stop_tx2, stop_rx2) = channel::<bool>();
+    let _ = stop_tx2.send(true);
+    let second = join_poller(spawn_poller(site.clone(), tx2, stop_rx2, None), &scope);
+    let d2 = drain_deliveries(&rx2);
+    sim.unregister(&site);
+    let fault = scope.lock().ok().and_then(|g| series_fault(&d2, vol, expected, &g));
+    match &second {
+        Ok(Some(Err(e))) if env(e) => obs.skipped_environment("loopback connect failed during a restarted poll"),
+        Ok(Some(Ok(()))) if d2.len() == 1 && fault.is_none() => obs.count("restarts_after_an_abandoned_poll_deliver_the_newest_chunk_present_then", 1),
+        other => obs.violation(
+            "polling started again after an abandoned poll does not deliver exactly the newest chunk present then",
+            format!("expected [({}, {})] and Ok, observed {:?} and {:?} {}", vol, expected, d2.iter().map(|d| (d.0, d.1)).collect::<Vec<_>>(), other, fault.unwrap_or_default()),
+            replay,
+        ),
+    }
+}
+
+pub fn run_twins(obs: &mut Obs, seed: u64, index: u64) {
+    let mut rng = Rng::derive(seed, 182, index);
+    let m = rng.urange(2, 40);
+    let mut sc = plain_scope(&mut rng, index, m);
+    let (held_tx, held_rx) = channel::<()>();
+    sc.hold_seq = Some(m + 1);
+    sc.held_tx = Some(held_tx);
+    let (site, vol) = (sc.site.clone(), sc.vol);
+    let scope = Arc::new(Mutex::new(sc));
+    let sim = s3sim::global();
+    sim.register(&site, scope.clone());
+    obs.case(mix(1820, m as u64));
+    let (tx_a, rx_a) = channel();
+    let (stop_a, stop_rx_a) = channel::<bool>();
+    let a = spawn_poller(site.clone(), tx_a, stop_rx_a, None);
+    // wait until the first poller's download of chunk m+1 is in flight (it has delivered chunk m)
+    let in_flight = held_rx.recv_timeout(std::time::Duration::from_secs(30)).is_ok();
+    let replay = json!({"scenario": "two-pollers-of-one-site", "scenario_index": index, "visible_at_first_start": m, "volume": vol});
+    let mut d_b = Vec::new();
+    let mut second = None;
+    if in_flight {
+        // chunks m+1 and m+2 are in the bucket now: a poller that starts here starts at m+2
+        let (tx_b, rx_b) = channel();
+        let (stop_b, stop_rx_b) = channel::<bool>();
+        let _ = stop_b.send(true);
+        second = Some(join_poller(spawn_poller(site.clone(), tx_b, stop_rx_b, None), &scope));
+        d_b = drain_deliveries(&rx_b);
+    }
+    // the first poller's download is let go; three downloads later the simulator enqueues its stop
+    // signal (while a download is being served: at most one further delivery)
+    if let Ok(mut g) = scope.lock() {
+        g.stop_tx = Some(stop_a.clone());
+        g.stop_after_gets = Some(3);
+        if let Some(gate) = g.held.clone() {
+            gate.release();
+        }
+    }
+    if !in_flight {
+        let _ = stop_a.send(true);
+    }
+    let mut d_a: Vec<Delivery> = Vec::new();
+    let first = join_poller(a, &scope);
+    d_a.extend(drain_deliveries(&rx_a));
+    sim.unregister(&site);
+    let env = |e: &str| e.contains("onnect");
+    if matches!(&first, Ok(Some(Err(e))) if env(e)) || matches!(&second, Some(Ok(Some(Err(e)))) if env(e)) {
+        obs.skipped_environment("loopback connect failed during polling");
+        return;
+    }
+    if !in_flight {
+        match &first {
+            Err(e) => obs.violation(format!("poll_chunks {}", e.split('|').next().unwrap_or("panic")), e.clone(), replay),
+            other => obs.violation("polling ends or stalls before it asks for the chunk after the newest one", format!("{:?}", other), replay),
+        }
+        return;
+    }
+    let g = match scope.lock() {
+        Ok(g) => g,
+        Err(_) => return,
+    };
+    let fault_b = series_fault(&d_b, vol, m + 2, &g);
+    match &second {
+        Some(Ok(Some(Ok(())))) if d_b.len() == 1 && fault_b.is_none() => obs.count("pollers_started_beside_a_live_poller_of_the_site_deliver_the_newest_chunk_present_then", 1),
+        other => obs.violation(
+            "a poller started while another poller of the site is alive does not first deliver the newest chunk present at its start",
+            format!("expected [({}, {})] and Ok, observed {:?} and {:?} {}", vol, m + 2, d_b.iter().map(|d| (d.0, d.1)).collect::<Vec<_>>(), other, fault_b.unwrap_or_default()),
+            replay.clone(),
+        ),
+    }
+    let fault_a = series_fault(&d_a, vol, m, &g);
+    match &first {
+        Ok(Some(Ok(()))) if fault_a.is_none() && !d_a.is_empty() => obs.count("pollers_with_a_second_poller_started_beside_them_deliver_in_order", 1),
+        other => obs.violation(
+            "a poller beside which another poller of the site was started does not deliver the series from its own start",
+            format!("first start at ({}, {}): observed {:?} and {:?} {}", vol, m, d_a.iter().map(|d| (d.0, d.1)).collect::<Vec<_>>(), other, fault_a.unwrap_or_default()),
+            replay,
+        ),
+    }
+}
+
 pub fn run(ctx: &mut Ctx) {
     ctx.rule = "a case is one scenario: an upload history (start volume incl. 1/2/500/997/998/999, 1..=55 chunks visible at start, older directories populated or not, per-chunk visibility delay / transient 404/500/403/503 of 0..4 failing downloads, next volumes appearing after 0..9 empty listings with 1..3 chunks, upload times in the past or up to ~200 s around now) and a termination (a chunk or volume that never appears, stop injected at the j-th download, consumer dropped at the j-th download, stop before start), run through the real poll_chunks under a paused tokio clock against the simulator; \
 distinct = distinct (start, visibility, fault, termination, delivery count) signatures and distinct request traces; oracle = offline checker over the recorded history"
@@ -1028,6 +1350,10 @@ distinct = distinct (start, visibility, fault, termination, delivery count) sign
     ctx.floor_evaluations = 20;
     let total: u64 = ctx.tier.pick(400, 20_000);
     let seed = ctx.seed;
-    par_cases(ctx, total, |i, obs| run_scenario(obs, seed, i));
+    par_cases(ctx, total, |i, obs| match i % 20 {
+        7 => run_abandoned(obs, seed, i),
+        13 => run_twins(obs, seed, i),
+        _ => run_scenario(obs, seed, i),
+    });
     ctx.obs.count("simulator_unrouted_requests", s3sim::global().unrouted.load(std::sync::atomic::Ordering::SeqCst));
 }
